@@ -2,11 +2,35 @@
 """Regenerates MANIFEST.json from the table below (kept as code so it stays consistent)."""
 import json, subprocess
 HOOK_COMMITS = ["d82671b"]
+DIFF = "runtime monitoring: boundary history (driver calls, next() items, vars) vs executable reference model"
+NOTE = "Trusted: reference interpreter (harness/src/refint.rs), generator/printer, scripted device. Both dev (overflow checks on) and release builds of the crate are exercised; evidence counts both."
+def T(what):
+    return what + " Held on the executions observed (counts in the evidence file); not a proof."
 CHECKS = {
- "C01": dict(level="exploration", design="3/C01",
-   text="Differential runtime monitor: the crate's complete row stream (line, input values, expected values, end) is compared with the stream prescribed by an independent reference interpreter on ~30k (quick) / 1.5M (thorough) generated programs per build profile plus an enumerated small space of loop nests with bounds in {-1,0,1,2}. Held on the executions observed; not a proof.",
-   note="Trusted: reference interpreter (refint.rs), generator/printer, scripted device. Both dev (overflow checks) and release builds of the crate are exercised.",
-   technique="runtime monitoring: boundary history vs executable reference model (differential oracle)"),
+ "C01": dict(level="exploration", design="3/C01", technique=DIFF + " (differential oracle over the whole row stream)", note=NOTE,
+   text=T("The crate's complete row stream (line, input values, expected values, end) is compared with the stream prescribed by an independent reference interpreter on ~30k (quick) / 1.5M (thorough) generated programs per build profile plus an enumerated small space of loop nests with bounds in {-1,0,1,2}.")),
+ "C02": dict(level="exploration", design="3/C02", technique="runtime monitoring: online protocol checker over the recorded driver-call log, evaluated after every next()", note=NOTE,
+   text=T("A recording TestDriver logs every call before answering; after every step an online oracle checks one-call-per-row, verbatim inputs, call kind (output-reading vs write_input), laziness, silence after End and full accounting of the log, with and without injected driver errors and with both driver variants.")),
+ "C03": dict(level="exploration", design="3/C03", technique="runtime monitoring: per-row attribution oracle over unique device answers + exhaustive verdict table", note=NOTE,
+   text=T("For every checked row the oracle recomputes each reported output from the recorded answer of that very call (unique values per call and signal, random subset/permutation layouts, Z/X/boundary values) and checks check()/is_checked()/failing_outputs() against the stated X/Z rules; the 37x37 value table of check() is enumerated.")),
+ "C04": dict(level="exploration", design="3/C04", technique=DIFF + " with feedback devices and unique answers (staleness visible)", note=NOTE,
+   text=T("Programs reading device outputs at every expression site are run against devices whose every answer is unique; device-side vectors and expected values must equal those the reference computes from the latest output-reading call; Z/X reads and missing outputs must surface as the stated errors.")),
+ "C05": dict(level="exploration", design="3/C05", technique=DIFF + " (expansion order oracle) + enumeration of all short rows over {0,1,X,C,Z}", note=NOTE,
+   text=T("The observed row/call sequence of rows containing C and X is compared with the documented expansion (leftmost X fastest, 0 first; clock triple 0,1,0 with only the last row checked) on generated programs and on all rows of width <= 4 over {0,1,X,C,Z} for three configurations.")),
+ "C06": dict(level="exploration", design="3/C06", technique="runtime monitoring: structural oracle from header+signal list, `changed` checked against the recorded previous device vector", note=NOTE,
+   text=T("Random signal lists and headers (subsets, permutations, split bidirectional pairs): every row must be a complete vector in signal-list order with values bound by header name; changed==false must imply equality with the previous vector the driver received.")),
+ "C07": dict(level="exploration", design="3/C07", technique="runtime monitoring: direct u128 oracle over an enumerated width x value x path x entry-form product", note="Oracle is a three-line u128 mask, independent of the reference interpreter. " + NOTE,
+   text=T("Every width 1..=64 x ~420 boundary values x 5 paths x 4 entry forms is executed through the real crate and the value seen by the device / in `expected` is compared with v mod 2^bits; plus randomised wide-signal programs against the reference.")),
+ "C08": dict(level="exploration", design="3/C08", technique="runtime monitoring: tree-as-ground-truth differential (text printed from tree with the stated precedence table, minimal and redundant parentheses, three public views of each value)", note=NOTE,
+   text=T("Random and enumerated expression trees are printed with the C08 precedence table and their full i64 value is observed through vars(), a 64-bit expected column and a virtual-signal column, in both parenthesisations, and compared with a wrapping reference evaluator of the tree.")),
+ "C10": dict(level="exploration", design="3/C10", technique="runtime monitoring: catch_unwind sentinel at every API stage over hazard-seeded programs + reference-prescribed error items", note=NOTE,
+   text=T("Hazard-seeded accepted programs (zero divisors, MIN/-1, overflow, wild shift counts, random(<2), signExt, maybe-unassigned variables, 63/64-bit signals, Z/X answers, driver errors) are run dynamically and statically under catch_unwind; no stage may panic and each hazard the reference reaches must be an error item.")),
+ "C14": dict(level="exploration", design="3/C14", technique=DIFF + " restricted to virtual-signal entries, with same-named variables in scope", note=NOTE,
+   text=T("Declared virtual signals (1-4, placed anywhere) are checked in every checked row against the reference's evaluation of the declared expression over that call's unique answers with variables invisible; Z/X operands must give an error item; vars() must survive the swap.")),
+ "C17": dict(level="exploration", design="3/C17", technique="runtime monitoring: hook-recorded draw log checked by replay (accounting), range, reset-prefix and same-seed oracles", note="Needs the verif-hooks feature (seed override + draw log). " + NOTE,
+   text=T("Every generator call made by random(n) is logged by a hook; the reference replays the log (each evaluation must find exactly its own draw, the log must be consumed exactly, rows must equal those of the literal-substituted program), ranges, reset replay and same-seed determinism are checked.")),
+ "C18": dict(level="exploration", design="3/C18", technique=DIFF + " on vars() sampled after every yielded row", note=NOTE,
+   text=T("vars() is sampled after every row of deeply nested, heavily shadowing programs and must equal the flattened frame stack of the reference at the moment the row's statement was evaluated.")),
 }
 ALL = ["C%02d" % i for i in range(1, 21)]
 def main():
